@@ -19,6 +19,7 @@ fn ctx(args: &[String]) -> Ctx {
         tmp_root: arg(args, "--tmp-root").unwrap_or("/verif/.build/sessim-tmp").to_string(),
         counter: std::sync::atomic::AtomicU64::new(0),
         ref_exe: arg(args, "--ref-exe").map(|s| s.to_string()),
+        racy: std::sync::atomic::AtomicU64::new(0),
     }
 }
 
@@ -135,6 +136,7 @@ fn cmd_drive(args: &[String]) -> i32 {
         "distinct_keys": st.keys_seen.len(), "distinct_contexts": st.contexts.len(), "distinct_nontrivial_contexts": nontrivial,
         "environment_seams_consulted_by_the_code": {"getrandom_calls": st.seam_getrandom, "clock_calls": st.seam_clock, "getpid_calls": st.seam_getpid,
             "getenv_calls": st.seam_getenv, "env_names": st.seam_names.iter().collect::<Vec<_>>(), "env_names_given_seeded_values": corpus.env_names.iter().map(|(n, c)| json!({"name": n, "candidate_values": c})).collect::<Vec<_>>()},
+        "sessions_whose_identical_plan_answered_differently": st.racy_sessions,
         "selfchecked_processes": st.selfchecked, "nondeterministic_sessions": st.nondeterministic,
         "errors": st.errors.iter().take(5).collect::<Vec<_>>(), "error_count": st.errors.len(),
         "divergent_sessions": st.divergences.len(),
